@@ -434,7 +434,43 @@ EXTRA4 = {
  "C20": "logabsdet is evaluated on matrices whose determinant leaves the floating-point range (scales 1e-120..1e80, 3 x "
         "orthogonal(128) in float32).",
 }
+EXTRA6 = {
+ "C09": "ADDED: the linear spline's inverse branch is the two-sided inverse of its forward branch (C09_linear_whole_spline_is_a_bijection); "
+        "the WHOLE piecewise-quadratic spline (bounded form) is a strictly increasing bijection of its box with the stable-root "
+        "inverse branch as two-sided inverse, for every accepted configuration and all parameters "
+        "(C09_quadratic_whole_spline_is_an_increasing_bijection); the WHOLE cubic spline's forward direction is accepted, pinned and "
+        "strictly increasing across bins (C09_cubic_whole_spline_forward_is_increasing_onto_its_range). Not claimed: the cubic inverse "
+        "(known finding) and the unconstrained / K-1-heights forms as theorems.",
+ "C02": "ADDED: C02_linear_whole_spline_round_trips and C02_quadratic_whole_spline_round_trips - both round trips on the whole box "
+        "with negated log-abs-dets for the whole linear and quadratic splines, all parameters.",
+ "C20": "ADDED: the translator checks that logabsdet returns torch.slogdet's log-magnitude unchanged (C20_logabsdet_is_the_log_magnitude_of_slogdet).",
+}
+EXTRA5 = {
+ "C01": "Every catalogue transform is also checked after it was evaluated and then given another checkpoint through load_state_dict.",
+ "C03": "The one-dimensional flows are integrated once more as restored models (evaluated, then loaded with a perturbed state dict); "
+        "a deficit is filed under the recorded Logit-clamp finding only if it disappears when the clamp is moved to 1e-15.",
+ "C04": "A used flow is compared with a never-called twin holding the same parameters (same noise) after load_state_dict and after "
+        "the same context tensor was overwritten in place.",
+ "C05": "Batched sampling with contexts whose densities sit far apart is compared row by row with the rows' own means.",
+ "C06": "Single-row batches in training mode are part of the perturbation experiment.",
+ "C07": "Conditioners with dropout and batch norm are used in evaluation mode.",
+ "C08": "The programs run once more in float64 with log-dets that float32 cannot hold, with a dtype check.",
+ "C09": "Inverse inputs 2e-7 .. 2e-6 of the interval below and above every knot are part of the grid.",
+ "C10": "Classes constructed with non-default eps are run through the histories.",
+ "C11": "64 / 128 features and entries of 1e-12 / 1e10 in both precisions: every accessor finite and equal to a float64 reference.",
+ "C12": "Sub-batches that are views of the big batch (contiguous, then strided, same first address) are evaluated one after the other.",
+ "C13": "float32 batches through float64 models and back: state values and dtypes unchanged, repeated calls identical.",
+ "C14": "A newly constructed ActNorm must be uninitialised whatever other instances did; loading leaves the saved instance alone.",
+ "C15": "The state dict is also loaded into an instance that had been evaluated; a history perturbs every persistent floating-point "
+        "entry; saved and restored model are compared on their next training-mode call including the state afterwards.",
+ "C18": "Sequences of sample calls on one object with contexts of changing row counts and with one context overwritten in place.",
+ "C20": "cbrt is evaluated over 1e-300 .. 1e300 in both signs.",
+}
 for _pid, _t in EXTRA.items():
+    CLAIMED[_pid]["text"] += " " + _t
+for _pid, _t in EXTRA5.items():
+    CLAIMED[_pid]["text"] += " " + _t
+for _pid, _t in EXTRA6.items():
     CLAIMED[_pid]["text"] += " " + _t
 for _pid, _t in EXTRA4.items():
     CLAIMED[_pid]["text"] += " " + _t
